@@ -271,10 +271,14 @@ var basicIntRanges = map[string][2]string{
 func (st *State) heapTyping(name, h string) {
 	if heapHoldsRefs[name] {
 		// every reference stored in the heap is nil or allocated (no dangling references in Go)
+		lim := st.alloc
+		if k := heapRefBlock[name]; k > 0 {
+			lim = sSub(st.alloc, sInt(int64(k)))
+		}
 		if strings.HasPrefix(name, "E!") {
-			st.addFact(fmt.Sprintf("(forall ((g_a Int) (g_i Int)) (! (and (<= 0 (select (select %s g_a) g_i)) (< (select (select %s g_a) g_i) %s)) :pattern ((select (select %s g_a) g_i))))", h, h, st.alloc, h))
+			st.addFact(fmt.Sprintf("(forall ((g_a Int) (g_i Int)) (! (and (<= 0 (select (select %s g_a) g_i)) (< (select (select %s g_a) g_i) %s)) :pattern ((select (select %s g_a) g_i))))", h, h, lim, h))
 		} else if strings.HasPrefix(name, "P!") {
-			st.addFact(fmt.Sprintf("(forall ((g_a Int)) (! (and (<= 0 (select %s g_a)) (< (select %s g_a) %s)) :pattern ((select %s g_a))))", h, h, st.alloc, h))
+			st.addFact(fmt.Sprintf("(forall ((g_a Int)) (! (and (<= 0 (select %s g_a)) (< (select %s g_a) %s)) :pattern ((select %s g_a))))", h, h, lim, h))
 		}
 		return
 	}
@@ -337,10 +341,14 @@ func (st *State) heapHavoc(name, sort string) string {
 // heapHoldsRefs: heaps whose cells are references (pointers / maps): every stored reference is allocated.
 var heapHoldsRefs = map[string]bool{}
 
+// heapRefBlock: for reference-holding heaps, the size of the block reserved behind each stored reference
+var heapRefBlock = map[string]int{}
+
 func elemHeapName(elem types.Type, c Comp) string {
 	n := "E!" + typeKey(elem) + "!" + c.Path
 	if c.T != nil && (classify(c.T) == tcPtr || classify(c.T) == tcMap) {
 		heapHoldsRefs[n] = true
+		heapRefBlock[n] = refBlock(c.T)
 	}
 	return n
 }
@@ -348,6 +356,7 @@ func ptrHeapName(pointee types.Type, c Comp) string {
 	n := "P!" + typeKey(pointee) + "!" + c.Path
 	if c.T != nil && (classify(c.T) == tcPtr || classify(c.T) == tcMap) {
 		heapHoldsRefs[n] = true
+		heapRefBlock[n] = refBlock(c.T)
 	}
 	return n
 }
@@ -366,6 +375,9 @@ func (st *State) typeFacts(v Val) []string {
 			}
 		case tcPtr, tcMap:
 			out = append(out, sCmp("<=", "0", v.S), sCmp("<", v.S, st.alloc))
+			if k := refBlock(v.T); k > 0 {
+				out = append(out, sCmp("<", sAdd(v.S, sInt(int64(k))), st.alloc))
+			}
 		}
 	case KSlice:
 		out = append(out, wfSlice(v, st.alloc)...)
@@ -435,6 +447,10 @@ func (st *State) zeroVal(t types.Type) Val {
 		s := t.Underlying().(*types.Struct)
 		v := Val{K: KStruct, T: t}
 		for i := 0; i < s.NumFields(); i++ {
+			if isInterior(s.Field(i).Type()) {
+				v.Sub = append(v.Sub, Val{K: KUnit, T: s.Field(i).Type()})
+				continue
+			}
 			v.Sub = append(v.Sub, st.zeroVal(s.Field(i).Type()))
 		}
 		return v
@@ -543,6 +559,9 @@ func fieldComps(structT types.Type, field string) (types.Type, []Comp, int) {
 	for i := 0; i < s.NumFields(); i++ {
 		f := s.Field(i)
 		cs := flatComps(f.Type())
+		if isInterior(f.Type()) {
+			cs = nil
+		}
 		if f.Name() == field {
 			out := make([]Comp, len(cs))
 			for j, c := range cs {
@@ -561,6 +580,10 @@ func (st *State) loadField(heap map[string]string, ref string, structT types.Typ
 	if ft == nil {
 		panic(vcErr("no field " + field + " in " + structT.String()))
 	}
+	if k := interiorIndex(structT, field); k > 0 {
+		// interior object: the field denotes the object at ref+k (see isInterior)
+		return vInt(sAdd(ref, sInt(int64(k))), types.NewPointer(ft))
+	}
 	terms := make([]string, len(comps))
 	for i, c := range comps {
 		h := st.heapIn(heap, ptrHeapName(structT, c), ptrSort(c))
@@ -571,6 +594,9 @@ func (st *State) loadField(heap map[string]string, ref string, structT types.Typ
 
 func (st *State) storeField(ref string, structT types.Type, field string, v Val) {
 	_, comps, _ := fieldComps(structT, field)
+	if interiorIndex(structT, field) > 0 {
+		panic(vcErr("assignment to the interior object field " + field + " as a whole is not supported"))
+	}
 	terms := flatten(v)
 	if len(terms) != len(comps) {
 		panic(vcErr(fmt.Sprintf("storeField %s: %d components, want %d", field, len(terms), len(comps))))
@@ -617,6 +643,23 @@ func (st *State) allocRef() string {
 	}
 	st.alloc = st.define("alloc", "Int", sAdd(st.alloc, "1"))
 	return r
+}
+
+// allocObject allocates an object of struct type t together with its interior objects (zero-initialised).
+func (st *State) allocObject(t types.Type) string {
+	ref := st.allocRef()
+	if s, ok := t.Underlying().(*types.Struct); ok {
+		for i := 0; i < s.NumFields(); i++ {
+			if ft := s.Field(i).Type(); isInterior(ft) {
+				r2 := st.allocRef()
+				if interiorCount(ft) > 0 {
+					panic(vcErr("nested interior objects are not supported"))
+				}
+				st.storePointee(r2, ft, st.zeroVal(ft))
+			}
+		}
+	}
+	return ref
 }
 
 type vcErr string
